@@ -470,6 +470,7 @@ package validate
 // types validation code writes at all, and which otherwise read-only types have scratch copies in a pool.
 // package-level variables initialised at load time and never reassigned
 //@ axiom emptyResult != nil && !redeemed(emptyResult) && cacheMutex != nil && defaultOptsMutex != nil
+//@ axiom arr(emptyResult.Errors) == nil && arr(emptyResult.Warnings) == nil && len(emptyResult.Errors) == 0 && len(emptyResult.Warnings) == 0 && !emptyResult.wantsRedeemOnMerge
 //@ validator_types SchemaValidator, itemsValidator, HeaderValidator, ParamValidator, basicCommonValidator, basicSliceValidator, numberValidator, stringValidator, typeValidator, formatValidator, schemaSliceValidator, objectValidator, schemaPropsValidator
 //@ mutable_types Result
 //@ unframed_types schemata, fieldSchemata, itemSchemata, A$*spec.Schema
@@ -497,6 +498,7 @@ package validate
 // ---------------------------------------------------------------------------
 // C06: schema validation never panics. Thin safety contracts: which values a validator may be handed
 // (the Applies/Validate protocol), which results may be nil, and the typed-slot invariant of SchemaValidator.
+//@ pred jsonOrNum(d interface{}) = isJSON(d) || typeis(d, "int64")
 //@ pred knumeric(d interface{}) = isInt(d) || isUint(d) || isF64(d) || isF32(d)
 //@ pred slotOK(v valueValidator, t string) = ptrof(v) != nil
 //@ pred slotsSV(s *SchemaValidator) = typeis(s.validators[0], "*typeValidator") && ptrof(s.validators[0]) != nil && typeis(s.validators[1], "*schemaPropsValidator") && ptrof(s.validators[1]) != nil && typeis(s.validators[2], "*stringValidator") && ptrof(s.validators[2]) != nil && typeis(s.validators[3], "*formatValidator") && ptrof(s.validators[3]) != nil && typeis(s.validators[4], "*numberValidator") && ptrof(s.validators[4]) != nil && typeis(s.validators[5], "*schemaSliceValidator") && ptrof(s.validators[5]) != nil && typeis(s.validators[6], "*basicCommonValidator") && ptrof(s.validators[6]) != nil && typeis(s.validators[7], "*objectValidator") && ptrof(s.validators[7]) != nil
@@ -504,7 +506,7 @@ package validate
 
 
 //@ func (*typeValidator).schemaInfoForType
-//@   requires[C06] isJSON(data) && data != nil
+//@   requires[C06] jsonOrNum(data) && data != nil
 //@   pure
 //@   ensures[C06] (result0 == "number") == isF64(data)
 //@ func (*schemaSliceValidator).Validate
@@ -530,11 +532,12 @@ package validate
 //@   pure
 //@   ensures[C06] result != nil
 //@ func (*Result).addRootObjectSchemata
+//@   effects validation
 //@   requires[C06] s != nil
-//@   modifies all(r), elems(r.rootObjectSchemata.multiple)
 //@ func (*Result).addPropertySchemata
+//@   effects validation
 //@   requires[C06] schema != nil
-//@   modifies all(r), heap("H$fieldSchemata$obj"), heap("H$fieldSchemata$field"), heap("H$schemata$one"), heap("H$schemata$multiple")
+//@   modifies r.fieldSchemata
 //@ func (*Result).mergeForSlice
 //@   requires[C06] other == nil || kind(slice) == 23
 //@   modifies *
@@ -641,7 +644,7 @@ package validate
 
 //@ func (*typeValidator).Validate
 //@   effects validation
-//@   requires[C06] isJSON(data)
+//@   requires[C06] jsonOrNum(data)
 //@   ensures[C04,C11] redeemed(t) == old(t.Options.recycleValidators)
 //@   ensures[C04,C06] result != nil && okResult(result)
 //@ func (*stringValidator).Validate
@@ -738,6 +741,7 @@ package validate
 //@ func (*SchemaValidator).Validate
 //@   effects validation
 //@   maypanic
+//@   loop 1 invariant kind != 22
 //@   requires[C06] isJSON(data)
 //@   requires[C06,C04] s == nil || readySV(s)
 //@   ensures[C04,C11] s == nil || redeemed(s) == old(s.Options.recycleValidators)
@@ -752,7 +756,7 @@ package validate
 //@ func (*schemaPropsValidator).Validate
 //@   effects validation
 //@   maypanic
-//@   requires[C06] isJSON(data) && data != nil
+//@   requires[C06] jsonOrNum(data) && data != nil
 //@   requires[C06,C04] readyProps(s)
 //@   ensures[C04,C11] redeemed(s) == old(s.Options.recycleValidators)
 //@   ensures[C04,C06] result != nil && okResult(result)
